@@ -41,6 +41,22 @@ theorem single_writer_ok :
 /-- the event-emitting skeleton of `runTarget.Evaluate` is the control flow `Events.evaluate` follows -/
 theorem evaluate_skeleton_ok : Extracted.LineWriter.evaluateSkeleton = Expected.LineWriter.evaluateSkeleton := rfl
 
+/-- How `Evaluate` recognises a missing dependency (model: `Dep.missing` ⇒ a lone `failed`): by a type switch on
+the dynamic type of the dependency's error, with the cases `UnknownTargetError` and `runner.CyclicDependencyError`
+— so what `LoadTarget` returns for an unknown label must BE an `UnknownTargetError`, not wrap one: every `return`
+of `unknownTarget` is the bare conversion `UnknownTargetError(…)`, and `LoadTarget` passes it on unchanged. -/
+theorem missing_dependency_classification_ok :
+    Extracted.LineWriter.depErrorClassification =
+      ["typeswitch dep.Error.(type): UnknownTargetError, runner.CyclicDependencyError"] ∧
+    (∀ c ∈ Extracted.LineWriter.unknownTargetReturns, c = "UnknownTargetError") ∧
+    Extracted.LineWriter.unknownTargetReturns ≠ [] ∧
+    Extracted.LineWriter.loadTargetBody = Expected.LineWriter.loadTargetBody := ⟨by decide, by decide, by decide, rfl⟩
+
+/-- `Project.Run` applies the options OF THIS RUN first — `RunOptions.apply` sets `always` and `dryrun` from the
+options, and resets both when there are none — so the facts `always` / `dryRun` of `Events.evaluate` are those of
+the run, never left over from an earlier one -/
+theorem run_options_ok : Extracted.LineWriter.runOptionsApplyBody = Expected.LineWriter.runOptionsApplyBody := rfl
+
 /-- `Project.Run` is `runner.Run`, then `RunDone(err)`, then `return err` (`Events.projectRun`) -/
 theorem run_body_ok : Extracted.LineWriter.runBody = Expected.LineWriter.runBody := rfl
 
